@@ -13,7 +13,7 @@ PROP = dict(
          "both alphabets) and int32 boundaries/random for raw, JSON, TL; addresses zero / all-ones / leading zeros / "
          "random; every id goes through every form on Go alone (go.addr.roundtrip) and printer+parser vs model; "
          "non-trivial = distinct (workchain, address). substitutions: all 48 x 63 single-digit substitutions of N "
-         "distinct friendly strings (quick N=300, thorough N=8000; the driver runs a csimp-proved table-driven CRC), each must be rejected; non-trivial = distinct "
+         "distinct friendly strings (quick N=300, thorough N=4000; the driver runs a csimp-proved table-driven CRC), each must be rejected; non-trivial = distinct "
          "string. malformed stream: fixed list (empty, no colon, short/odd/long/upper-case hex, signs, leading zeros, "
          "int32 overflow, two colons, newlines, wrong length, padding) + 12 mutation kinds applied to valid raw, "
          "friendly, base64, base32 and ADNL strings. ADNL: random addresses, with/without .adnl, upper case, same-length "
@@ -39,6 +39,7 @@ PROP = dict(
         "uint64 as its input); the byte read itself is covered by the correspondence (addresses with dirty lower bytes)",
     ],
     partial=[],
+    line_timeout="120s",   # the substitution lines do 3024 parses each; generous because checks run under heavy machine load
     level_text=(
         "Theorems for ALL inputs (kernel-checked, no bv_decide/native_decide): shard_roundtrip, match_is_prefix "
         "(prefix lengths 0..63), match_block (+ zero shard), parent_child_inverse, child_parent_inverse, "
